@@ -221,6 +221,19 @@ TC05(e) ==
               \o JacChk("C05.rminus", M(e.d2r_rminus), Hrm, t)
               \o JacChk("C05.rminus.sqn", M(e.d2r_rminus_sqn), Hsq, t)
          ELSE <<>>)
+\* class-member API: inverse Hessians only (the exp Hessians go through the ordinary c05 event with inv = 0)
+TC05M(e) ==
+  LET g == e.g  a == V(e.a)  t == TolC05(e.sc)  n == Dof(g)
+      A == MNeg(Xad(g, a))
+      PD == RForce([k \in 1..n |-> Phi1AndD(A, MNeg(Xad(g, VUnit(n, k))))])
+      Ji == MInvD(PD[1][1])
+      dJi == RForce([k \in 1..n |-> MNeg(MMul(MMul(Ji, PD[k][2]), Ji))])
+      PDl == RForce([k \in 1..n |-> Phi1AndD(MNeg(A), Xad(g, VUnit(n, k)))])
+      Jli == MInvD(PDl[1][1])
+      dJli == RForce([k \in 1..n |-> MNeg(MMul(MMul(Jli, PDl[k][2]), Jli))])
+  IN IF ~InvDomain(g, a) THEN <<>>
+     ELSE JacChk("C05.d2r_expinv", M(e.d2r_expinv), StackHess(n, dJi), t)
+          \o JacChk("C05.d2l_expinv", M(e.d2l_expinv), StackHess(n, dJli), t)
 TC05Fin(e) == FinM(e.d2r_exp) /\ FinM(e.d2l_exp) /\ FinOpt(e, "d2r_expinv") /\ FinOpt(e, "d2l_expinv")
               /\ FinOpt(e, "d2r_rminus") /\ FinOpt(e, "d2r_rminus_sqn")
 
@@ -337,6 +350,7 @@ Check(e) ==
     [] e.op = "c04" -> IF TC04Fin(e) THEN TC04(e) ELSE NonFinite("C04.dr_exp")
     [] e.op = "dr_action" -> IF FinM(e.out) THEN TDrAction(e) ELSE NonFinite("C04.action")
     [] e.op = "c05" -> IF TC05Fin(e) THEN TC05(e) ELSE NonFinite("C05.d2r_exp")
+    [] e.op = "c05m" -> IF FinM(e.d2r_expinv) /\ FinM(e.d2l_expinv) THEN TC05M(e) ELSE NonFinite("C05.d2r_expinv")
     [] e.op = "dprod" -> IF FinM(e.out) THEN TDProd(e) ELSE NonFinite("C05.dprod")
     [] e.op = "fog" -> IF FinM(e.out) THEN TFog(e) ELSE NonFinite("C05.fog")
     [] e.op = "bparts" -> TBParts(e)
@@ -345,7 +359,7 @@ Check(e) ==
 
 \* operands outside the property's domain are a harness error, never a verdict
 ElemOps == {"compose", "inverse", "assoc", "units", "matrix", "act", "log", "Ad", "Adhom", "dr_action"}
-TanOps == {"exp", "hat", "veelin", "ad", "bracket", "Adexp", "c04", "c05"}
+TanOps == {"exp", "hat", "veelin", "ad", "bracket", "Adexp", "c04", "c05", "c05m"}
 DomainProblems(e) ==
   IF e.op \in ElemOps
   THEN (IF ElemInDomain(e.g, V(e.a), e.sc) THEN <<>> ELSE <<[clause |-> "TOOL.domain", err |-> e.op, tol |-> "a"]>>)
